@@ -364,11 +364,11 @@ def fmt_rep(r):
 # --------------------------------------------------------------------------- behaviour sources
 def pick_opts(i: int, git_every=True, normal=True):
     return {"checkout": CHECKOUT_HOW[i % 4], "switch": SWITCH_HOW[(i // 4) % 3], "unstage": ("unstage", "restore")[(i // 12) % 2],
-            "prune": bool((i // 24) % 2), "perms": i % 3, "git_every": git_every, "normal": normal}
+            "prune": bool((i // 24) % 2), "perms": i % 3, "cfg": (i // 3) % 4, "git_every": git_every, "normal": normal}
 
 
 def git_opts(i: int):
-    return {"checkout": ("checkout", "reset")[i % 2], "switch": ("checkout", "reset")[(i // 2) % 2], "prune": bool((i // 4) % 2), "perms": i % 3, "normal": True}
+    return {"checkout": ("checkout", "reset")[i % 2], "switch": ("checkout", "reset")[(i // 2) % 2], "prune": bool((i // 4) % 2), "perms": i % 3, "cfg": (i // 3) % 4, "normal": True}
 
 
 def graph_behaviours(ctx, cfg: str, name: str, budget):
@@ -693,11 +693,16 @@ def run(ctx):
     ctx.cov["rule"] = ("an execution = one behaviour (checkout, then edits / index operations / switches) carried out on a real repository; distinct = distinct "
                        "(naming and content scheme, entry-point variants, action sequence with arguments); all are non-trivial (each performs at least a checkout and one status call "
                        "judged against the specification)")
+    from ..c18_lib import CONFIG_PROFILES
+    ctx.cov["config_profiles"] = [dict(p) for p in CONFIG_PROFILES]
     ctx.cov["schemes"] = {"names": sorted(NAME_SCHEMES), "contents": list(CONTENT_SCHEMES), "combinations_used": [list(s) for s in SCHEMES]}
     ctx.assumptions += [
         "racy-git is not part of the property: the harness sets the mtime of every file it writes explicitly (one second per edit, os.utime) so that a size-preserving modification is "
         "distinguishable from the stat data recorded in the index; files written by dulwich itself keep the kernel's time stamps",
-        "core.autocrlf=false, core.filemode=true, core.symlinks=true, no filters, no .gitignore, no submodules, HOME pointing at an empty directory",
+        "core.autocrlf=false, core.filemode=true, core.symlinks=true, no filters, no .gitignore, no submodules, HOME pointing at an empty directory; "
+        "every behaviour runs under one of four configuration profiles that select alternative code paths without changing the expected answers "
+        "(none; core.preloadIndex=true; core.trustctime=false; preloadIndex + trustctime=false + index.version=4); settings that change the answers "
+        "(core.fileMode=false, core.symlinks=false, core.maxStat, core.checkStat) are not modelled and not exercised",
         "HEAD tree and directory are projected with git ls-tree and os.walk/lstat/readlink, the index with an independent reader of index v2/v3 (git ls-files as fall-back); "
         "tree and blob ids are computed with hashlib; SHA-1 is treated as injective",
         "C git 2.39.5 is the third opinion: `git status --porcelain=v1 -z -uall --no-renames` and `git write-tree` run on a copy of the index in the same directory "
